@@ -1,10 +1,13 @@
 #!/bin/sh
-# usage: eval_all_seeds.sh C04 C13 ...   (evaluates /tmp/wt/<ID>/seed_A and seed_B, saves to /verif/seeded/<ID>-A|B)
+# usage: eval_all_seeds.sh <worktree-base> <suffixA> <suffixB> C04 C13 ...
+#   evaluates <base>/<ID>/seed_A and seed_B and saves them as /verif/seeded/<ID>-<suffixA|suffixB>
+base=$1; sa=$2; sb=$3; shift 3
 for p in "$@"; do
   for x in A B; do
-    d=/tmp/wt/$p/seed_$x
-    [ -d "$d" ] || { echo "$p-$x: missing"; continue; }
-    /venv/bin/python /verif/tools/seed_eval.py $d --target $p --save /verif/seeded/$p-$x | python3 -c "
-import json,sys; d=json.load(sys.stdin); print('$p-$x', 'valid' if d.get('valid_seed') else 'INVALID', '| tests:',d.get('tests_tail','')[:12], '| demo clean',d.get('demo_clean_rc'),'patched',d.get('demo_patched_rc'),'| fired:',{k:len(v) for k,v in d.get('violations',{}).items()}, 'errors:',list(d.get('analysis_errors',{})), 'TARGET-HIT' if d.get('detected_by_target') else ('other-hit' if d.get('detected') else 'MISSED'))"
+    d=$base/$p/seed_$x
+    [ "$x" = A ] && sfx=$sa || sfx=$sb
+    [ -d "$d" ] || { echo "$p-$sfx: missing"; continue; }
+    /venv/bin/python /verif/tools/seed_eval.py $d --target $p --save /verif/seeded/$p-$sfx | python3 -c "
+import json,sys; d=json.load(sys.stdin); print('$p-$sfx', 'valid' if d.get('valid_seed') else 'INVALID', '| tests:',d.get('tests_tail','')[:12], '| demo clean',d.get('demo_clean_rc'),'patched',d.get('demo_patched_rc'),'| fired:',{k:len(v) for k,v in d.get('violations',{}).items()}, 'errors:',list(d.get('analysis_errors',{})), 'TARGET-HIT' if d.get('detected_by_target') else ('other-hit' if d.get('detected') else 'MISSED'))"
   done
 done
